@@ -57,6 +57,10 @@ func init() {
 		for _, k := range []string{"DD", "DU", "UD", "FD", "DF"} {
 			p.Jobs = append(p.Jobs, Job{Harness: "gonnx.H_C13", Case: map[string]interface{}{"kinds": []string{k}, "sup": []int{2}, "init": []int{0}, "extra": 0, "mutate": 0, "bare": 0, "view": 1}})
 		}
+		// ... and one that is lazily transposed
+		for _, k := range []string{"DD", "DU", "FD", "DF", "FF", "DDD", "D"} {
+			p.Jobs = append(p.Jobs, Job{Harness: "gonnx.H_C13", Case: map[string]interface{}{"kinds": []string{k}, "sup": []int{2}, "init": []int{0}, "extra": 0, "mutate": 0, "bare": 0, "view": 2}})
+		}
 		// declarations of rank 9 and 10 with fixed dimensions on the last axes
 		for _, k := range []string{"DDDDDDDDF", "FDDDDDDDDF", "DDDDDDDFFF"} {
 			add([]string{k}, []int{len(k)}, []int{0}, 0, 0)
@@ -108,6 +112,7 @@ func init() {
 		}
 		p.Outside = []string{"declared rank 0 and value-infos lacking type/shape (the gate skips them)", "dim_value <= 0", "supplied extents > 6 or 0", "more than 3 inputs"}
 		p.Explanation = "Model.Run / validateShapes / introspection executed symbolically on identity graphs with shape-only tensors"
+		reentrancyJobs(o, p)
 		return p
 	}
 }
